@@ -101,6 +101,34 @@ def work(args):
     return fval(x)
 
 
+def work_scalar(args):
+    """mapped over plain numbers: SneakyPool.map wraps a non-iterable argument as (x,)"""
+    x = args[0]
+    _enter(x)
+    return fval(x)
+
+
+def work_fit(args):
+    """mapped over tuples that contain the pool's fitness object at some position: SneakyJob strips it before the
+    job is pickled and the worker puts its own copy back AT THE SAME POSITION"""
+    pos = [i for i, a in enumerate(args) if isinstance(a, fit_mod.Fitness)]
+    rest = [a for a in args if not isinstance(a, fit_mod.Fitness)]
+    jid, x, mode = rest
+    _enter(jid)
+    if mode == 1:
+        raise WorkError(x)
+    return fval(x) * 100 + (10 * len(pos) + pos[0] if pos else 99)
+
+
+def work_big(args):
+    """a result far larger than a pipe buffer"""
+    jid, x, mode, delay = args
+    _enter(jid, delay)
+    if mode == 1:
+        raise WorkError(x)
+    return (fval(x), bytes([x % 251]) * 1200000)
+
+
 # ---------------------------------------------------------------------------
 # steering
 # ---------------------------------------------------------------------------
@@ -194,11 +222,17 @@ class Steer:
         if self.idle > 20000:
             raise Stall("main loop keeps polling although nothing is outstanding")
 
-    def wait_for(self, w):
-        """blocking get() on an empty buffer: the main process waits for worker w"""
+    def wait_for(self, w, until_poll=False):
+        """blocking get() on an empty buffer: the main process waits for worker w (with until_poll: only until
+        the next P of the schedule, which stands for the expiry of the caller's timeout)"""
         while not self.bufs[w]:
             if self.sched:
-                self.act(self.sched.popleft())
+                a = self.sched.popleft()
+                if a[0] == "P":
+                    if until_poll:
+                        return
+                    continue
+                self.act(a)
                 continue
             before = len(self.bufs[w])
             if self.shared_jobs is not None:
@@ -206,6 +240,8 @@ class Steer:
             else:
                 self.finish(w)
             if len(self.bufs[w]) == before:
+                if until_poll:
+                    return
                 raise Stall("main process blocks on worker %d which has nothing to deliver" % w)
 
 
@@ -234,7 +270,14 @@ class ResultQueueProxy:
         if not buf:
             if not block:
                 raise pyqueue.Empty
-            self._steer.wait_for(self._w)
+            if timeout is not None:
+                # a bounded wait: the schedule decides whether the worker makes it in time -- completions scheduled
+                # before the next P arrive, the next P is the expiry of the timeout
+                self._steer.wait_for(self._w, until_poll=True)
+                if not buf:
+                    raise pyqueue.Empty
+            else:
+                self._steer.wait_for(self._w)
         self._steer.consumed[self._w] += 1
         return buf.popleft()
 
@@ -358,21 +401,52 @@ def serial_outcomes(batch, base):
 # case kinds
 # ---------------------------------------------------------------------------
 
+def serial_of(batch, base, fitness):
+    """evaluate one after another in this process, the way the batch is handed to map"""
+    out = []
+    for i, (x, mode) in enumerate(batch["jobs"]):
+        try:
+            if batch.get("scalar"):
+                out.append(["ok", work_scalar([x])])
+            elif batch.get("fitpos") is not None:
+                a = [base + i, x, mode]
+                a.insert(batch["fitpos"], fitness)
+                out.append(["ok", work_fit(a)])
+            else:
+                out.append(["ok", work([base + i, x, mode, 0])])
+        except WorkError as e:
+            out.append(["exc", e.args[0]])
+    return out
+
+
 def case_smap(c):
     """SneakyPool.map: several batches on one pool, steered"""
-    sp = SteeredPool(c["procs"], fitness=None, paths=None)
+    fitness = TableFitness([("ok", 1)])
+    sp = SteeredPool(c["procs"], fitness=fitness, paths=None)
     out = []
     try:
         for b, batch in enumerate(c["batches"]):
             base = 64 * b
             jobs = batch["jobs"]
             st = sp.begin(batch["sched"])
-            args_list = [(base + i, x, mode, 0) for i, (x, mode) in enumerate(jobs)]
-            ys, raised = consume(sp.pool.map(work, args_list, log_info=False), batch.get("abandon"))
+            if batch.get("scalar"):
+                fn, args_list, jids = work_scalar, [x for x, _ in jobs], [x for x, _ in jobs]
+            elif batch.get("fitpos") is not None:
+                args_list = []
+                for i, (x, mode) in enumerate(jobs):
+                    a = [base + i, x, mode]
+                    a.insert(batch["fitpos"], fitness)
+                    args_list.append(tuple(a))
+                fn, jids = work_fit, [base + i for i in range(len(jobs))]
+            else:
+                fn, args_list = work, [(base + i, x, mode, 0) for i, (x, mode) in enumerate(jobs)]
+                jids = [base + i for i in range(len(jobs))]
+            before = evals_of(jids)
+            ys, raised = consume(sp.pool.map(fn, args_list, log_info=False), batch.get("abandon"))
             pend, resq = sp.residue()
             out.append({
-                "serial": serial_outcomes(jobs, base), "yields": ys, "raised": raised,
-                "pend": pend, "resq": resq, "evals": evals_of([base + i for i in range(len(jobs))]),
+                "serial": serial_of(batch, base, fitness), "yields": ys, "raised": raised,
+                "pend": pend, "resq": resq, "evals": [a - b0 for a, b0 in zip(evals_of(jids), before)],
                 "ticks": st.ticks, "forced": st.forced,
             })
     finally:
@@ -380,8 +454,21 @@ def case_smap(c):
     return {"batches": out}
 
 
+def case_smap_twofit(c):
+    """two fitness objects among the arguments: SneakyJob refuses, map raises before anything is queued"""
+    fitness = TableFitness([("ok", 1)])
+    sp = SteeredPool(c["procs"], fitness=fitness, paths=None)
+    try:
+        sp.begin([])
+        ys, raised = consume(sp.pool.map(work_fit, [(0, fitness, fitness, 1)], log_info=False))
+        pend, resq = sp.residue()
+        return {"yields": ys, "raised": raised, "pend": pend, "resq": resq, "evals": evals_of([0])}
+    finally:
+        sp.close()
+
+
 def case_smap_free(c):
-    """SneakyPool.map free-running (real OS scheduling, small sleeps inside the jobs)"""
+    """SneakyPool.map free-running (real OS scheduling, small sleeps inside the jobs, optionally 1.2 MB results)"""
     GATED.value = 0
     pool = sneaky_mod.SneakyPool(c["procs"], None, None)
     out = []
@@ -390,7 +477,11 @@ def case_smap_free(c):
             base = 64 * b
             jobs = batch["jobs"]
             args_list = [(base + i, x, mode, d) for i, (x, mode, d) in enumerate(jobs)]
-            ys, raised = consume(pool.map(work, args_list, log_info=False))
+            big = bool(batch.get("big"))
+            ys, raised = consume(pool.map(work_big if big else work, args_list, log_info=False))
+            if big:
+                bad = [1 for v, blob in ys if len(blob) != 1200000 or len(set(blob[:1000])) != 1]
+                ys = [v for v, blob in ys] if not bad else ["corrupt payload"]
             time.sleep(0.03)
             resq = [0 if p.queue.empty() else 1 for p in pool.processes]
             pend = [0 if p.job_queue.empty() else 1 for p in pool.processes]
@@ -401,6 +492,37 @@ def case_smap_free(c):
     finally:
         del pool
     return {"batches": out}
+
+
+class Mul:
+    def __init__(self, m):
+        self.m = m
+
+    def __call__(self, x):
+        return self.m * x + 1
+
+
+def case_sneakier(c):
+    """SneakierPool (multiprocessing.Pool behind a class-global function cache), oracle only"""
+    from autofit.non_linear.parallel import SneakierPool
+    out = []
+
+    def use(pool, xs):
+        try:
+            with pool as p:
+                return ["ok", [int(v) for v in p.map(p.fitness, xs)]]
+        except Exception as e:  # noqa
+            return ["exc", type(e).__name__, str(e)[:80]]
+
+    specs = c["pools"]
+    if c["order"] == "constructed-first":
+        pools = [SneakierPool(processes=c["procs"], fitness=Mul(sp["mul"])) for sp in specs]
+        for pool, sp in zip(pools, specs):
+            out.append(use(pool, sp["xs"]))
+    else:
+        for sp in specs:
+            out.append(use(SneakierPool(processes=c["procs"], fitness=Mul(sp["mul"])), sp["xs"]))
+    return {"results": out}
 
 
 class TableFitness(fit_mod.Fitness):
@@ -654,6 +776,180 @@ def case_jobs_free(c):
             "raised": raised, "summaries": summaries, "sorted": srt, "evals": evals_of(range(len(jobs)))}
 
 
+
+# ---------------------------------------------------------------------------
+# the real callers: GridSearch.fit and Sensitivity.run with number_of_cores > 1 (steered) against number_of_cores = 1
+# ---------------------------------------------------------------------------
+from autofit.non_linear.grid import grid_search as gs_mod
+from autofit.non_linear.grid import sensitivity as sens_mod
+
+
+def _count_eval(jid):
+    if _worker_index() is not None:
+        with EVALS.get_lock():
+            EVALS[jid] += 1
+
+
+class CellError(ValueError):
+    pass
+
+
+class CellAnalysis(af.Analysis):
+    """log likelihood identifies the grid cell; listed cells raise"""
+
+    def __init__(self, n, names, fail):
+        self.n, self.names, self.fail = n, names, fail
+
+    def cell_of(self, instance):
+        idx = 0
+        for nm in self.names:
+            idx = idx * self.n + min(self.n - 1, int(getattr(instance, nm).centre * self.n))
+        return idx
+
+    def log_likelihood_function(self, instance):
+        k = self.cell_of(instance)
+        _count_eval(k)
+        if k in self.fail:
+            raise CellError(k)
+        return -1.5 * (k + 1)
+
+
+def _grid_once(c, cores, tag):
+    names = sorted(c["grid"])
+    objs = {nm: af.UniformPrior(lower_limit=0.0, upper_limit=1.0) for nm in names}
+    model = af.Collection(**{nm: af.Model(af.Gaussian, centre=objs[nm], normalization=1.0, sigma=1.0) for nm in names})
+    search = af.m.MockSearch(name="c14grid_%s_%d" % (tag, c["idx"]))
+    gs = gs_mod.GridSearch(search=search, number_of_steps=c["n"], number_of_cores=cores)
+    out = {"raised": None}
+    try:
+        res = gs.fit(model, CellAnalysis(c["n"], names, set(c["fail"])), [objs[nm] for nm in c["grid"]])
+        cells = []
+        for sm in res.samples:
+            if isinstance(sm, Placeholder):
+                cells.append(None)
+            else:
+                cells.append([int(round(getattr(sm.model, nm).centre.lower_limit * c["n"])) for nm in names])
+        out["cells"] = cells
+    except CellError as e:
+        out["raised"] = ["CellError", e.args[0]]
+    except (Stall, CaseTimeout, RaceHang):
+        raise
+    except Exception as e:  # noqa
+        out["raised"] = [type(e).__name__, str(e)[:100]]
+    rows = []
+    try:
+        with open(gs.paths.output_path / "results.csv") as f:
+            for ln in f.read().strip().splitlines()[1:]:
+                parts = [x.strip() for x in ln.split(",")]
+                rows.append([int(parts[0])] + [int(round(float(x) * c["n"])) for x in parts[1:1 + len(names)]])
+    except OSError:
+        pass
+    out["csv"] = rows
+    return out
+
+
+def case_grid_fit(c):
+    """real GridSearch.fit: number_of_cores = cores with the workers of Process.run_jobs steered, and number_of_cores = 1"""
+    total = c["n"] ** len(c["grid"])
+    serial = _grid_once(c, 1, "ser")
+    for i in range(NEVAL):
+        EVALS[i] = 0
+    st = Steer(c["sched"], c["cores"] - 1, shared_jobs=total)
+    STEER[0] = st
+    GATED.value = 1
+    saved = gs_mod.Process
+    gs_mod.Process = GatedProcess
+    try:
+        par = _grid_once(c, c["cores"], "par")
+    finally:
+        gs_mod.Process = saved
+    par["evals"] = evals_of(range(total))
+    return {"serial": serial, "parallel": par}
+
+
+class _SensSim:
+    def __call__(self, instance, simulate_path):
+        return 0.0
+
+
+def _mock_result(model, ll):
+    from autofit.non_linear.mock.mock_samples_summary import MockSamplesSummary
+    summary = MockSamplesSummary(
+        model=model,
+        max_log_likelihood_sample=af.Sample(log_likelihood=ll, log_prior=0.0, weight=1.0,
+                                            kwargs={path: 1.0 for path in model.paths}))
+    return af.m.MockResult(samples_summary=summary, model=model)
+
+
+class _SensBaseFit:
+    def __call__(self, dataset, model, paths):
+        return _mock_result(model, 0.0)
+
+
+class _SensPerturbFit:
+    def __init__(self, n, fail):
+        self.n, self.fail = n, fail
+
+    def __call__(self, dataset, model, paths):
+        pr = model.perturb.centre
+        k = min(self.n - 1, int(0.5 * (pr.lower_limit + pr.upper_limit) * self.n))
+        _count_eval(k)
+        if k in self.fail:
+            raise CellError(k)
+        return _mock_result(model, 1.0 + k)
+
+
+def _sens_once(c, cores, tag):
+    n = c["n"]
+    perturb_model = af.Model(af.Gaussian, centre=af.UniformPrior(lower_limit=0.0, upper_limit=1.0), normalization=1.0, sigma=1.0)
+    instance = af.ModelInstance()
+    instance.gaussian = af.Gaussian()
+    sens = sens_mod.Sensitivity(
+        simulation_instance=instance,
+        base_model=af.Collection(gaussian=af.Model(af.Gaussian, centre=af.UniformPrior(0.0, 1.0), normalization=1.0, sigma=1.0)),
+        perturb_model=perturb_model, simulate_cls=_SensSim(), base_fit_cls=_SensBaseFit(),
+        perturb_fit_cls=_SensPerturbFit(n, set(c["fail"])),
+        paths=af.DirectoryPaths(name="c14sens_%s_%d" % (tag, c["idx"])),
+        number_of_steps=n, number_of_cores=cores)
+    out = {"raised": None}
+    try:
+        res = sens.run()
+        out["lls"] = [int(round(sm.log_likelihood)) - 1 for sm in res.perturb_samples]
+    except CellError as e:
+        out["raised"] = ["CellError", e.args[0]]
+    except (Stall, CaseTimeout, RaceHang):
+        raise
+    except Exception as e:  # noqa
+        out["raised"] = [type(e).__name__, str(e)[:100]]
+    rows = []
+    try:
+        with open(sens.results_path) as f:
+            for ln in f.read().strip().splitlines()[1:]:
+                rows.append(int(ln.split(",")[0].strip()))
+    except OSError:
+        pass
+    out["csv"] = rows
+    return out
+
+
+def case_sens_fit(c):
+    """real Sensitivity.run: number_of_cores = cores (steered) and number_of_cores = 1"""
+    serial = _sens_once(c, 1, "ser")
+    for i in range(NEVAL):
+        EVALS[i] = 0
+    st = Steer(c["sched"], c["cores"] - 1, shared_jobs=c["n"])
+    STEER[0] = st
+    GATED.value = 1
+    saved = sens_mod.Process
+    sens_mod.Process = GatedProcess
+    try:
+        par = _sens_once(c, c["cores"], "par")
+    finally:
+        sens_mod.Process = saved
+    par["evals"] = evals_of(range(c["n"]))
+    return {"serial": serial, "parallel": par}
+
+
 class TrivialJob(process_mod.AbstractJob):
     def perform(self):
         return GridJobResult(SimpleNamespace(samples_summary=self.number), [self.number], self.number)
@@ -734,14 +1030,15 @@ def case_jobs_race(c):
     return {"hangs": hangs, "wrong": wrong, "stuck": stuck, "calls": c["repeat"]}
 
 
-KINDS = {"jobs_race": case_jobs_race, "smap": case_smap, "smap_free": case_smap_free, "init": case_init, "emcee": case_emcee,
+KINDS = {"smap_twofit": case_smap_twofit, "sneakier": case_sneakier, "grid_fit": case_grid_fit, "sens_fit": case_sens_fit, "jobs_race": case_jobs_race, "smap": case_smap, "smap_free": case_smap_free, "init": case_init, "emcee": case_emcee,
          "jobs": case_jobs, "jobs_free": case_jobs_free}
 
 
 def main():
     cases = json.load(open(sys.argv[1]))["cases"]
     out = []
-    for c in cases:
+    for ci, c in enumerate(cases):
+        c.setdefault("idx", ci)
         signal.alarm(400 + 2 * int(c.get("repeat", 0)))
         try:
             t0 = time.time()
